@@ -478,6 +478,7 @@ func ForeachChannel(sourcePChannels, targetPChannels []string, f func(sourcePCha
 
 func (r *replicateChannelManager) AddPartition(ctx context.Context, dbInfo *model.DatabaseInfo, collectionInfo *pb.CollectionInfo, partitionInfo *pb.PartitionInfo) error {
 	var handlers []*replicateChannelHandler
+	var expectedHandlerCnt int
 	collectionID := collectionInfo.ID
 	taskID := util.GetTaskIDFromCtx(ctx)
 	partitionLog := log.With(zap.Int64("partition_id", partitionInfo.PartitionID), zap.Int64("collection_id", collectionID),
@@ -499,6 +500,10 @@ func (r *replicateChannelManager) AddPartition(ctx context.Context, dbInfo *mode
 			return nil
 		}
 		r.channelLock.RLock()
+		// every channel of the collection has a handler, the handler gets the collection record when it has
+		// opened the stream, the partition barrier should wait all of them
+		expectedHandlerCnt = len(lo.Uniq(lo.Values(r.sourcePChannelKeyMap[collectionID])))
+		handlers = handlers[:0]
 		for _, handler := range r.channelHandlerMap {
 			handler.recordLock.RLock()
 			if _, ok := handler.collectionRecords[collectionID]; ok {
@@ -507,8 +512,8 @@ func (r *replicateChannelManager) AddPartition(ctx context.Context, dbInfo *mode
 			handler.recordLock.RUnlock()
 		}
 		r.channelLock.RUnlock()
-		if len(handlers) == 0 {
-			partitionLog.Info("waiting handler")
+		if len(handlers) == 0 || len(handlers) < expectedHandlerCnt {
+			partitionLog.Info("waiting handler", zap.Int("handler_num", len(handlers)), zap.Int("expected_num", expectedHandlerCnt))
 			return errors.New("no handler found")
 		}
 		return nil
@@ -517,8 +522,8 @@ func (r *replicateChannelManager) AddPartition(ctx context.Context, dbInfo *mode
 		return nil
 	}
 
-	if len(handlers) == 0 {
-		partitionLog.Warn("no handler found")
+	if len(handlers) == 0 || len(handlers) < expectedHandlerCnt {
+		partitionLog.Warn("no handler found", zap.Int("handler_num", len(handlers)), zap.Int("expected_num", expectedHandlerCnt))
 		return errors.New("no handler found")
 	}
 
